@@ -1,6 +1,6 @@
 // ===========================================================================
 // prelude/clientsync_index.rs — stand-in for `sos_search::SearchIndex`
-// (crates/search/src/search.rs) as the units `clientsync` / `clientstore` use it.
+// (crates/search/src/search.rs) as the unit `clientsync` uses it.
 // The contracts are the labels PROVED in unit `search` (units/search.vrs), restated
 // over a document map keyed by the BYTES of (folder id, secret id) — unit `search`
 // keys it by the `Uuid` values themselves (`Uuid(pub [u8; 16])`, equal exactly when
